@@ -20,7 +20,9 @@ rw = KaniUnit("c07_rate_wit", CORE, modules=[dict(file=CORE + "/src/model/cost/v
 rw.native_witnesses = ["c07_wit_combined_rate_applies_members_in_order"]
 rt = VerusUnit("c07_rate", "c07_rate", rlimit=30, paired_kani=(rw, []))
 eo = VerusUnit("c01_edge_oriented", "c01_edge_oriented", rlimit=60, clauses=r"callers\.[01]")
-UNITS = [al, cm, sp, rc, cb, rt, eo, cw, rw]
+hw = KaniUnit("c16_haversine_wit", "routee-compass-core", modules=[dict(file="routee-compass-core/src/util/geo/haversine.rs", src="c16_haversine_wit.rs")], harnesses=[])
+hw.native_witnesses = ["c16_wit_great_circle_distance_agrees_with_an_independent_formula"]
+UNITS = [al, cm, sp, rc, cb, rt, eo, cw, rw, hw]
 EXPLANATION = ("NOT optimality. Decided: the relaxation mechanism of run_a_star as contracts on the verbatim driver (Verus): a label is replaced only by a strictly smaller cost-so-far equal to the near vertex' "
                "label plus the edge's total cost; the vertex is re-queued with f = g + weighted estimate and its queue priority is never worse than that f (invariant Q: catches push_increase/push_decrease "
                "mix-ups and flipped comparisons); advance_search hands out a queued vertex of least f-score (assumed contract of the priority_queue crate + ReverseCost's order reversal, proved by Kani); "
